@@ -168,6 +168,15 @@ func vhC12ServeConnBalance() {
 // served again.
 func vhC12ServeConnOverflow() {
 	s := &Server{NoDefaultDate: true, NoDefaultServerHeader: true, Concurrency: 1}
+	perIP := vBool("limitIsPerIP")
+	refusal := "HTTP/1.1 503"
+	if perIP {
+		// the overlapping connections come from the address that already has
+		// its one allowed connection open: refused with 429, nothing else held
+		s.Concurrency = 8
+		s.MaxConnsPerIP = 1
+		refusal = "HTTP/1.1 429"
+	}
 	handled := 0
 	s.Handler = func(ctx *RequestCtx) {
 		handled++
@@ -185,7 +194,7 @@ func vhC12ServeConnOverflow() {
 	for i := 0; i < extra; i++ {
 		c := &vsSegConn{segs: [][]byte{[]byte("GET /x HTTP/1.1\r\nHost: a\r\nConnection: close\r\n\r\n")}}
 		err := s.ServeConn(c)
-		if err == ErrConcurrencyLimit && len(c.wrote) >= 12 && string(c.wrote[:12]) == "HTTP/1.1 503" && c.closed == 1 {
+		if (err == ErrConcurrencyLimit || perIP) && err != nil && len(c.wrote) >= 12 && string(c.wrote[:12]) == refusal && c.closed == 1 {
 			refused++
 		}
 	}
